@@ -47,7 +47,7 @@ def codec_level(ctx):
           "Fixpoint bad (i : nat) cs := match cs with [] => [] | c :: r => if chk c then bad (S i) r else i :: bad (S i) r end.\n")
     items = [f"({clist([cz(x) for x in l])}, {clist([f'({a}, {b})' for a, b in rs])}, {clist([cz(x) for x in bk])})"
              for l, rs, bk in cases]
-    t += "Definition cases := " + clist(items) + ".\nEval vm_compute in (bad 0 cases).\n"
+    t += "Definition cases : list (list Z * list (Z*Z) * list Z) := " + clist(items) + ".\nEval vm_compute in (bad 0 cases).\n"
     out = ctx.coq.eval_cases("c12codec", t)
     idx = [int(x) for x in re.findall(r"\d+", core.parse_coq_values(out)[0])]
     for i in idx[:3]:
